@@ -7,6 +7,11 @@
  *         mark == size == my_size re-established.
  * PART 2: heapify() from any state: n <= NMAX elements, [0,mark) a heap, arbitrary tail.
  * PART 3: reheap() from any non-empty state (top already moved out; the last element is sifted down from the root).
+ * -DEXC (unit compiled with exceptions, element type Elem whose COPY may throw): PART 1 with a symbolic fault position:
+ *         the FAULT-th element copy of the batch throws. Post: no exception leaves handle_operations; exactly the push whose
+ *         copy threw is FAILED and left no element behind; every other operation of the batch is unaffected (same oracles,
+ *         with the failed push treated as absent). PART 4: the public push() end to end: a throwing copy reaches this caller
+ *         as an exception and leaves the queue unchanged; a later push succeeds.
  * Harness-side loops are macro-unrolled (REP8) so that --unwind only has to cover the loops of the real code. */
 #include "w.h"
 #include "vp.h"
@@ -19,7 +24,13 @@
 #define REP4(F) F(0) F(1) F(2) F(3)
 #define REP3(F) F(0) F(1) F(2)
 typedef struct S_class_tbb__detail__d1__concurrent_priority_queue queue_t;
+#ifdef EXC
+typedef struct S_class_tbb__detail__d1__concurrent_priority_queue_Elem___cpq_operation op_t;
+#define ELEMP(p) ((struct S_struct_Elem*)(p))
+#else
 typedef struct S_class_tbb__detail__d1__concurrent_priority_queue_int___cpq_operation op_t;
+#define ELEMP(p) (p)
+#endif
 
 /* external boundaries */
 static u32 pool[2][CAP] __attribute__((aligned(128)));
@@ -30,7 +41,15 @@ u8* _ZN3tbb6detail2r122cache_aligned_allocateEm(u64 n) {
 }
 void _ZN3tbb6detail2r124cache_aligned_deallocateEPv(u8* p) { }
 u64 _ZN3tbb6detail2r115cache_line_sizeEv(void) { return 128; }
+#ifdef EXC
+static u8 tok_user, tok_tbb;                 /* type tokens of the user's exception / of the exception thrown by r1::throw_exception */
+static int ncopies, fault_at, n_tbb_throw;   /* fault_at: which copy throws (0 = none) */
+void vp_may_throw_copy(u32 v) { ncopies++; if (ncopies == fault_at) vp_throw_user(&tok_user); }
+/* r1::throw_exception(bad_alloc): contract = throws */
+void _ZN3tbb6detail2r115throw_exceptionENS0_2d012exception_idE(u32 id) { n_tbb_throw++; vp_throw_user(&tok_tbb); }
+#else
 void _ZN3tbb6detail2r115throw_exceptionENS0_2d012exception_idE(u32 id) { VP_ASSERT(0, "throw_exception reached although nothing threw"); }
+#endif
 void _ZSt20__throw_length_errorPKc(u8* s) { VP_ASSERT(0, "std::length_error from the vector"); }
 
 queue_t qobj;
@@ -55,7 +74,8 @@ static int fin_count(int x) { int c = 0;
 
 #if PART == 1
 #define NB 3
-static const int kind[NB] = { B0, B1, B2 };
+static const int kind0[NB] = { B0, B1, B2 };   /* as submitted */
+static int kind[NB] = { B0, B1, B2 };          /* as judged: a push whose copy threw counts as absent */
 static op_t op0, op1, op2;           /* separate objects (not an array: see NOTES, cbmc field-sensitivity issue) */
 static op_t* const ops[NB] = { &op0, &op1, &op2 };
 static u32 elem[NB];
@@ -114,10 +134,21 @@ int main(void) {
   /* the batch, linked B0 -> B1 -> B2 (kind 0 = absent; absent entries are at the end) */
   op_t* next = 0;
 #define MK(p) if (kind[p] != 0) { if (kind[p] == 2) elem[p] = 0xdeadbeefu; else { pushed[p] = nd_int(); elem[p] = (u32)pushed[p]; } \
-                                  vp_op_init(ops[p], &elem[p], kind[p], next); next = ops[p]; }
+                                  vp_op_init(ops[p], ELEMP(&elem[p]), kind[p], next); next = ops[p]; }
   MK(2) MK(1) MK(0)
+#ifdef EXC
+  { int ncp = (B0 == 1) + (B1 == 1) + (B2 == 1); fault_at = (int)vp_nd_range(0, ncp); }
+#endif
   vp_q_handle(Q, next);
   int npush = 0, npop = 0;
+#ifdef EXC
+  VP_ASSERT(vp_exc == 0, "an exception left handle_operations (it would surface in the handler thread, not in the caller of the failing operation)");
+  VP_ASSERT(ncopies == (B0 == 1) + (B1 == 1) + (B2 == 1), "harness: copy count differs from the number of PUSH_OP operations");
+  { int seen = 0;   /* copies happen in list order: the FAULT-th PUSH_OP is the one that threw */
+#define FK(p) if (kind0[p] == 1) { seen++; if (seen == fault_at) { \
+      VP_ASSERT(vp_op_status(ops[p]) == 2, "push whose element copy threw is not reported FAILED to its caller"); kind[p] = 0; } }
+    REP3(FK) }
+#endif
 #define ST(p) if (kind[p] != 0) { u64 st = vp_op_status(ops[p]); \
     VP_ASSERT(st == 1 || st == 2, "operation left without a status (its thread would spin forever)"); \
     if (kind[p] == 2) { ok[p] = (st == 1); got[p] = (int)elem[p]; if (ok[p]) npop++; else VP_ASSERT(elem[p] == 0xdeadbeefu, "failed pop wrote its result"); } \
@@ -135,6 +166,20 @@ int main(void) {
   REP4(CVI)
 #define CVP(p) if (ISPUSH(p)) VP_ASSERT(fin_count(pushed[p]) == cnt(7, pushed[p]), "contents not conserved (element lost or duplicated)");
   REP3(CVP)
+#elif PART == 4 && defined(EXC)
+  /* public push() end to end, sequentially: 1st push with a copy that may throw, 2nd push without fault */
+  fault_at = (int)vp_nd_range(0, 1);
+  int a = nd_int(), b = nd_int();
+  u32 threw = vp_q_push_catch(Q, (u32)a);
+  VP_ASSERT(vp_exc == 0, "exception pending after the catching caller");
+  VP_ASSERT(threw == (u32)(fault_at == 1), "push(): the exception must reach exactly the caller whose element copy threw");
+  VP_ASSERT(n_tbb_throw == (fault_at == 1), "push() raises through r1::throw_exception exactly when its operation came back FAILED");
+  snapshot();
+  VP_ASSERT(nfin == (u64)(fault_at == 1 ? 0 : 1) && vp_q_mark(Q) == nfin && vp_q_mysize(Q) == nfin, "failed push left the queue changed / successful push not stored");
+  u32 threw2 = vp_q_push_catch(Q, (u32)b);
+  VP_ASSERT(!threw2 && vp_exc == 0, "push after a failed push must succeed (handler released, aggregator usable)");
+  snapshot();
+  VP_ASSERT(nfin == (u64)(fault_at == 1 ? 1 : 2) && vp_q_mark(Q) == nfin && vp_q_mysize(Q) == nfin && heap_ok(nfin), "queue state wrong after the second push");
 #elif PART == 2 || PART == 3
   static int v0[CAP];
 #ifdef NN   /* element count and mark concrete per query (loop control of the kernels becomes concrete), values symbolic */
